@@ -20,6 +20,8 @@ Local Open Scope Z_scope.
 (* ---------------------------------------------------------------------------------------------- *)
 (* tactics                                                                                          *)
 (* ---------------------------------------------------------------------------------------------- *)
+(* a function the translator refused is regenerated as its hand model: nothing to prove *)
+Ltac placeholder_of g := unfold g; lazymatch goal with |- ?l = ?r => constr_eq l r; reflexivity end.
 Ltac munfold := unfold bind, ret, lift, fail, raise, unbound, instantiate, eph_call, frac_ltb, terminal_ratio, res_map, len, zlen.
 
 (* the scrutinee a term inspects first *)
@@ -63,7 +65,7 @@ Ltac mcrush :=
 (* ---------------------------------------------------------------------------------------------- *)
 Lemma gen_root_eq self ds : gen_root self ds = m_root self ds.
 Proof.
-  first [ reflexivity
+  first [ placeholder_of gen_root
         | unfold gen_root, m_root; rewrite getitem_nonneg by lia; destruct self; reflexivity ].
 Qed.
 
@@ -106,18 +108,18 @@ Ltac search_from l z :=
 
 Lemma gen_searchSubtree_eq self begin ds : gen_searchSubtree self begin ds = m_searchSubtree self begin ds.
 Proof.
-  first [ reflexivity | idtac ].
-  unfold gen_searchSubtree, m_searchSubtree, search_subtree_py, len.
-  change (@zlen node self) with (Z.of_nat (length self)).
-  unfold bind at 1.
-  destruct (begin <? 0) eqn:E0; cbv beta iota zeta; rewrite ?E0.
-  - destruct (begin + Z.of_nat (length self) <? 0) eqn:E1; [reflexivity|].
-    set (b := begin + Z.of_nat (length self)) in *. unfold ret at 1.
-    assert (Hb : 0 <= b) by lia.
-    search_from self b.
-  - unfold ret at 1.
-    assert (Hb : 0 <= begin) by lia.
-    search_from self begin.
+  tryif placeholder_of gen_searchSubtree then idtac else (
+    unfold gen_searchSubtree, m_searchSubtree, search_subtree_py, len;
+    change (@zlen node self) with (Z.of_nat (length self));
+    unfold bind at 1;
+    destruct (begin <? 0) eqn:E0; cbv beta iota zeta; rewrite ?E0;
+    [ destruct (begin + Z.of_nat (length self) <? 0) eqn:E1; [reflexivity|];
+      set (b := begin + Z.of_nat (length self)) in *; unfold ret at 1;
+      assert (Hb : 0 <= b) by lia;
+      search_from self b
+    | unfold ret at 1;
+      assert (Hb : 0 <= begin) by lia;
+      search_from self begin ]).
 Qed.
 
 (* ---------------------------------------------------------------------------------------------- *)
@@ -152,15 +154,18 @@ Ltac mcrush' :=
 (* ---------------------------------------------------------------------------------------------- *)
 Lemma gen_height_eq self ds : gen_height self ds = m_height self ds.
 Proof.
-  first [ reflexivity | idtac ].
-  unfold gen_height, m_height, height. cbv zeta. unfold bind at 1.
-  lazymatch goal with
+  tryif placeholder_of gen_height then idtac else (
+    unfold gen_height, m_height, height;
+    cbv zeta;
+    unfold bind at 1;
+    lazymatch goal with
   | |- context [for_each self ?b ([0], 0) ds] =>
       assert (Hb : forall n st m ds, b n (st, m) ds =
                 bind (pop_last st) (fun p => ret (snd p ++ repeat (fst p + 1) (arity n), Z.max m (fst p))) ds);
       [ intros; mcrush' | pose proof (for_height b Hb self [0] 0 ds) as H; cbn [rev app] in H; rewrite H ]
-  end.
-  rewrite height_loop2_snd. destruct (height_loop2 self [0] 0) as [[st m]|]; reflexivity.
+  end;
+    rewrite height_loop2_snd;
+    destruct (height_loop2 self [0] 0) as [[st m]|]; reflexivity).
 Qed.
 
 (* ---------------------------------------------------------------------------------------------- *)
@@ -181,38 +186,51 @@ Qed.
 Lemma gen_setitem_slice_eq self key val ds : 0 <= fst key -> 0 <= snd key ->
   gen_setitem_slice self key val ds = m_setitem_slice self key val ds.
 Proof.
-  intros Ha Hb. first [ reflexivity | idtac ].
-  destruct key as [a b]. cbn [fst snd] in Ha, Hb.
-  unfold gen_setitem_slice, m_setitem_slice, set_slice, len. cbn [fst snd].
-  destruct (Z.of_nat (length self) <=? a) eqn:E1;
-    destruct (length self <=? Z.to_nat a)%nat eqn:E2; try lia; [reflexivity|].
-  unfold bind at 1. rewrite getitem_nonneg by lia. cbn [Z.to_nat].
-  destruct val as [|v0 vr]; [reflexivity|]. cbn [nth_error]. unfold ret at 1. cbv zeta.
-  rewrite getslice_tail. cbn [tl].
-  unfold bind at 1.
-  lazymatch goal with
+  intros Ha Hb.
+  tryif placeholder_of gen_setitem_slice then idtac else (
+    destruct key as [a b];
+    cbn [fst snd] in Ha, Hb;
+    unfold gen_setitem_slice, m_setitem_slice, set_slice, len;
+    cbn [fst snd];
+    destruct (Z.of_nat (length self) <=? a) eqn:E1;
+    destruct (length self <=? Z.to_nat a)%nat eqn:E2; try lia; [reflexivity|];
+    unfold bind at 1;
+    rewrite getitem_nonneg by lia;
+    cbn [Z.to_nat];
+    destruct val as [|v0 vr]; [reflexivity|];
+    cbn [nth_error];
+    unfold ret at 1;
+    cbv zeta;
+    rewrite getslice_tail;
+    cbn [tl];
+    unfold bind at 1;
+    lazymatch goal with
   | |- context [for_each vr ?b ?t0 ds] =>
       rewrite (for_total b); [ | intros; mcrush' ]
-  end.
-  unfold ret at 1.
-  lazymatch goal with
+  end;
+    unfold ret at 1;
+    lazymatch goal with
   | |- context [fold_left ?f vr ?t0] => destruct (fold_left f vr t0 =? 0) eqn:E3
-  end; cbn [negb]; [|reflexivity].
-  cbv zeta. rewrite setslice_obj_model by lia. reflexivity.
+  end; cbn [negb]; [|reflexivity];
+    cbv zeta;
+    rewrite setslice_obj_model by lia;
+    reflexivity).
 Qed.
 
 Lemma gen_setitem_item_eq self key val ds : gen_setitem_item self key val ds = m_setitem_item self key val ds.
 Proof.
-  first [ reflexivity | idtac ].
-  unfold gen_setitem_item, m_setitem_item, set_item_py, set_item, getitem, list_setitem, py_get, py_set, PyList.zlen, zlen.
-  cbv zeta. unfold bind at 1.
-  set (j := if key <? 0 then key + Z.of_nat (length self) else key).
-  destruct ((j <? 0) || (Z.of_nat (length self) <=? j)); [reflexivity|].
-  destruct (nth_error self (Z.to_nat j)) as [old|]; [|reflexivity].
-  unfold ret at 1, zarity.
-  destruct (Z.of_nat (arity val) =? Z.of_nat (arity old)) eqn:E1;
-    destruct (Nat.eqb (arity val) (arity old)) eqn:E2; try lia; cbn [negb]; [|reflexivity].
-  munfold. now rewrite set_nth_same.
+  tryif placeholder_of gen_setitem_item then idtac else (
+    unfold gen_setitem_item, m_setitem_item, set_item_py, set_item, getitem, list_setitem, py_get, py_set, PyList.zlen, zlen;
+    cbv zeta;
+    unfold bind at 1;
+    set (j := if key <? 0 then key + Z.of_nat (length self) else key);
+    destruct ((j <? 0) || (Z.of_nat (length self) <=? j)); [reflexivity|];
+    destruct (nth_error self (Z.to_nat j)) as [old|]; [|reflexivity];
+    unfold ret at 1, zarity;
+    destruct (Z.of_nat (arity val) =? Z.of_nat (arity old)) eqn:E1;
+    destruct (Nat.eqb (arity val) (arity old)) eqn:E2; try lia; cbn [negb]; [|reflexivity];
+    munfold;
+    now rewrite set_nth_same).
 Qed.
 
 (* ---------------------------------------------------------------------------------------------- *)
@@ -221,13 +239,17 @@ Qed.
 Lemma gen_generate_eq ps mn mx cond t ds : (forall h, cond_mono (cond h)) ->
   gen_generate ps mn mx cond t ds = m_generate ps mn mx cond t ds.
 Proof.
-  intro Hm. first [ reflexivity | idtac ].
-  unfold gen_generate, m_generate. cbv zeta.
-  set (t0 := match t with Some x => x | None => p_ret ps end).
-  replace (match t with None => p_ret ps | Some type_ => type_ end) with t0 by (destruct t; reflexivity).
-  apply bind_cong_ok. intros h ds1 Er. cbv zeta.
-  unfold while_draws.
-  lazymatch goal with
+  intro Hm.
+  tryif placeholder_of gen_generate then idtac else (
+    unfold gen_generate, m_generate;
+    cbv zeta;
+    set (t0 := match t with Some x => x | None => p_ret ps end);
+    replace (match t with None => p_ret ps | Some type_ => type_ end) with t0 by (destruct t; reflexivity);
+    apply bind_cong_ok;
+    intros h ds1 Er;
+    cbv zeta;
+    unfold while_draws;
+    lazymatch goal with
   | |- bind (fun ds => while_fuel _ ?c ?b ?s ds) ?k ds1 = _ =>
       pose proof (while_gen ps (cond h) c b) as W;
       lazymatch type of W with
@@ -236,13 +258,16 @@ Proof.
           assert (Hb : P2) by (intros; mcrush');
           specialize (W Hc Hb k); clear Hc Hb
       end
-  end.
-  lazymatch type of W with
+  end;
+    lazymatch type of W with
   | ?P1 -> _ => assert (Hk : P1) by (intros [[? ?] ?] ?; reflexivity); specialize (W Hk (S (length ds1)) [(0, t0)] [] t0 ds1)
-  end.
-  cbn [rev app] in W. unfold bind in W |- *. rewrite W.
-  apply d_randint_ok in Er. destruct Er as [_ (d & ->)].
-  apply gen_loop_c_fuel; [apply Hm | cbn [length]; lia ..].
+  end;
+    cbn [rev app] in W;
+    unfold bind in W |- *;
+    rewrite W;
+    apply d_randint_ok in Er;
+    destruct Er as [_ (d & ->)];
+    apply gen_loop_c_fuel; [apply Hm | cbn [length]; lia ..]).
 Qed.
 
 (* genFull / genGrow: the nested `condition` is, pointwise, the model's condition for the mode *)
@@ -253,25 +278,32 @@ Ltac gen_mode_equiv ps mode mn :=
 
 Lemma gen_genFull_eq ps mn mx t ds : gen_genFull ps mn mx t ds = m_genFull ps mn mx t ds.
 Proof.
-  first [ reflexivity | idtac ].
-  unfold gen_genFull, m_genFull, gen_expr. cbn [g_kind g_min g_max]. gen_mode_equiv ps GFull mn.
+  tryif placeholder_of gen_genFull then idtac else (
+    unfold gen_genFull, m_genFull, gen_expr;
+    cbn [g_kind g_min g_max];
+    gen_mode_equiv ps GFull mn).
 Qed.
 
 Lemma gen_genGrow_eq ps mn mx t ds : gen_genGrow ps mn mx t ds = m_genGrow ps mn mx t ds.
 Proof.
-  first [ reflexivity | idtac ].
-  unfold gen_genGrow, m_genGrow, gen_expr. cbn [g_kind g_min g_max]. gen_mode_equiv ps GGrow mn.
+  tryif placeholder_of gen_genGrow then idtac else (
+    unfold gen_genGrow, m_genGrow, gen_expr;
+    cbn [g_kind g_min g_max];
+    gen_mode_equiv ps GGrow mn).
 Qed.
 
 Lemma gen_genHalfAndHalf_eq ps mn mx t ds : gen_genHalfAndHalf ps mn mx t ds = m_genHalfAndHalf ps mn mx t ds.
 Proof.
-  first [ reflexivity | idtac ].
-  unfold gen_genHalfAndHalf, m_genHalfAndHalf, gen_expr. cbn [g_kind g_min g_max].
-  change [gen_genGrow; gen_genFull]
-    with (map (fun m => match m with GGrow => gen_genGrow | GFull => gen_genFull end) [GGrow; GFull]).
-  unfold bind at 1. rewrite d_choice_map. unfold bind, ret.
-  destruct (d_choice [GGrow; GFull] ds) as [[m ds1]|]; [|reflexivity].
-  destruct m; [ rewrite gen_genFull_eq | rewrite gen_genGrow_eq ]; reflexivity.
+  tryif placeholder_of gen_genHalfAndHalf then idtac else (
+    unfold gen_genHalfAndHalf, m_genHalfAndHalf, gen_expr;
+    cbn [g_kind g_min g_max];
+    change [gen_genGrow; gen_genFull]
+    with (map (fun m => match m with GGrow => gen_genGrow | GFull => gen_genFull end) [GGrow; GFull]);
+    unfold bind at 1;
+    rewrite d_choice_map;
+    unfold bind, ret;
+    destruct (d_choice [GGrow; GFull] ds) as [[m ds1]|]; [|reflexivity];
+    destruct m; [ rewrite gen_genFull_eq | rewrite gen_genGrow_eq ]; reflexivity).
 Qed.
 
 (* ---------------------------------------------------------------------------------------------- *)
@@ -346,9 +378,9 @@ Ltac mcrush2 := mcrush_with idtac.
 (* ---------------------------------------------------------------------------------------------- *)
 Lemma gen_mutNodeReplacement_eq l ps ds : gen_mutNodeReplacement l ps ds = m_mutNodeReplacement l ps ds.
 Proof.
-  first [ reflexivity | idtac ].
-  unfold gen_mutNodeReplacement, m_mutNodeReplacement, mut_node_replacement.
-  mcrush2.
+  tryif placeholder_of gen_mutNodeReplacement then idtac else (
+    unfold gen_mutNodeReplacement, m_mutNodeReplacement, mut_node_replacement;
+    mcrush2).
 Qed.
 
 (* ---------------------------------------------------------------------------------------------- *)
@@ -356,11 +388,16 @@ Qed.
 (* ---------------------------------------------------------------------------------------------- *)
 Lemma gen_mutUniform_eq l expr ps ds : gen_mutUniform l expr ps ds = m_mutUniform l expr ps ds.
 Proof.
-  first [ reflexivity | idtac ].
-  unfold gen_mutUniform, m_mutUniform. rewrite len_nat. unfold zlen.
-  apply bind_cong_ok. intros zi ds1 E. apply d_randrange_ok in E. destruct E as [Hz _].
-  nat_index zi Hz.
-  mcrush2.
+  tryif placeholder_of gen_mutUniform then idtac else (
+    unfold gen_mutUniform, m_mutUniform;
+    rewrite len_nat;
+    unfold zlen;
+    apply bind_cong_ok;
+    intros zi ds1 E;
+    apply d_randrange_ok in E;
+    destruct E as [Hz _];
+    nat_index zi Hz;
+    mcrush2).
 Qed.
 
 (* ---------------------------------------------------------------------------------------------- *)
@@ -376,16 +413,16 @@ Ltac use_for_eph :=
 
 Lemma gen_mutEphemeral_eq l mode ds : gen_mutEphemeral l mode ds = m_mutEphemeral l mode ds.
 Proof.
-  first [ reflexivity | idtac ].
-  unfold gen_mutEphemeral, m_mutEphemeral, mut_ephemeral.
-  destruct mode; cbn [existsb mode_eqb orb negb]; [ | | reflexivity ]; cbv zeta;
+  tryif placeholder_of gen_mutEphemeral then idtac else (
+    unfold gen_mutEphemeral, m_mutEphemeral, mut_ephemeral;
+    destruct mode; cbn [existsb mode_eqb orb negb]; [ | | reflexivity ]; cbv zeta;
     rewrite enumerate_from_0; erewrite idx_filter by (intros; reflexivity); cbv beta;
     set (idxs := map fst (filter (fun q => neph (snd q)) (enumerate l)));
     (destruct idxs as [|i0 r0]; [reflexivity|]);
     unfold len; cbn [map length]; rewrite Nat2Z.inj_succ;
     (replace (0 <? Z.succ (Z.of_nat (length (map Z.of_nat r0)))) with true by lia);
     change (Z.of_nat i0 :: map Z.of_nat r0) with (map Z.of_nat (i0 :: r0));
-    mcrush_with ltac:(rewrite ?d_choice_map; try use_for_eph).
+    mcrush_with ltac:(rewrite ?d_choice_map; try use_for_eph)).
 Qed.
 
 (* ---------------------------------------------------------------------------------------------- *)
@@ -394,19 +431,24 @@ Qed.
 Lemma gen_staticLimit_eq key maxv func args ds :
   gen_staticLimit key maxv func args ds = m_staticLimit key maxv func args ds.
 Proof.
-  first [ reflexivity | idtac ].
-  unfold gen_staticLimit, m_staticLimit. cbv zeta.
-  apply bind_cong_ok. intros outs ds1 _.
-  rewrite enumerate_from_0. unfold enumerate.
-  lazymatch goal with
+  tryif placeholder_of gen_staticLimit then idtac else (
+    unfold gen_staticLimit, m_staticLimit;
+    cbv zeta;
+    apply bind_cong_ok;
+    intros outs ds1 _;
+    rewrite enumerate_from_0;
+    unfold enumerate;
+    lazymatch goal with
   | |- bind (for_each _ ?b outs) _ ds1 = _ =>
       pose proof (for_limit key maxv args b) as W;
       lazymatch type of W with
       | ?P -> _ => assert (Hb : P) by (intros; mcrush2); specialize (W Hb outs [] ds1); clear Hb
       end
-  end.
-  cbn [length app] in W. unfold bind in W |- *. rewrite W.
-  destruct (limit_fold_k key maxv args outs ds1) as [[r ds2]|]; reflexivity.
+  end;
+    cbn [length app] in W;
+    unfold bind in W |- *;
+    rewrite W;
+    destruct (limit_fold_k key maxv args outs ds1) as [[r ds2]|]; reflexivity).
 Qed.
 
 (* ---------------------------------------------------------------------------------------------- *)
@@ -436,35 +478,36 @@ Ltac dd_loops :=
 
 Lemma gen_cxOnePoint_eq l1 l2 ds : gen_cxOnePoint l1 l2 ds = m_cxOnePoint l1 l2 ds.
 Proof.
-  first [ reflexivity | idtac ].
-  unfold gen_cxOnePoint, m_cxOnePoint, cx_one_point, cx_one_point_with, swap_subtrees, common_types.
-  destruct (dd_build_model all_nodes l1) as (K1 & G1 & M1).
-  destruct (dd_build_model all_nodes l2) as (K2 & G2 & M2).
-  mcrush_with ltac:(
+  tryif placeholder_of gen_cxOnePoint then idtac else (
+    unfold gen_cxOnePoint, m_cxOnePoint, cx_one_point, cx_one_point_with, swap_subtrees, common_types;
+    destruct (dd_build_model all_nodes l1) as (K1 & G1 & M1);
+    destruct (dd_build_model all_nodes l2) as (K2 & G2 & M2);
+    mcrush_with ltac:(
     single_choice; span_slices; cbn [dd_set dd_get]; rewrite ?N.eqb_refl;
     rewrite ?enumerate_from_1_tl; dd_loops;
     rewrite ?K1, ?G1, ?G2, ?d_choice_map, ?range2_seq;
-    try rewrite (filter_ext _ _ M2)).
+    try rewrite (filter_ext _ _ M2))).
 Qed.
 
 Lemma gen_cxOnePointLeafBiased_eq l1 l2 termpb ds :
   gen_cxOnePointLeafBiased l1 l2 termpb ds = m_cxOnePointLeafBiased l1 l2 termpb ds.
 Proof.
-  first [ reflexivity | idtac ].
-  unfold gen_cxOnePointLeafBiased, m_cxOnePointLeafBiased, cx_leaf_biased, cx_leaf_biased_with, swap_subtrees, common_types.
-  destruct termpb as [pn pd]. cbn [fst snd].
-  destruct (dd_build_model is_term l1) as (K1t & G1t & M1t).
-  destruct (dd_build_model is_prim l1) as (K1p & G1p & M1p).
-  destruct (dd_build_model is_term l2) as (K2t & G2t & M2t).
-  destruct (dd_build_model is_prim l2) as (K2p & G2p & M2p).
-  mcrush_with ltac:(
+  tryif placeholder_of gen_cxOnePointLeafBiased then idtac else (
+    unfold gen_cxOnePointLeafBiased, m_cxOnePointLeafBiased, cx_leaf_biased, cx_leaf_biased_with, swap_subtrees, common_types;
+    destruct termpb as [pn pd];
+    cbn [fst snd];
+    destruct (dd_build_model is_term l1) as (K1t & G1t & M1t);
+    destruct (dd_build_model is_prim l1) as (K1p & G1p & M1p);
+    destruct (dd_build_model is_term l2) as (K2t & G2t & M2t);
+    destruct (dd_build_model is_prim l2) as (K2p & G2p & M2p);
+    mcrush_with ltac:(
     span_slices;
     repeat match goal with
            | |- context [lt_frac ?u ?a ?b] => let E := fresh "E" in destruct (lt_frac u a b) eqn:E
            end;
     rewrite ?enumerate_from_1_tl; dd_loops;
     rewrite ?K1t, ?K1p, ?G1t, ?G1p, ?G2t, ?G2p, ?d_choice_map;
-    try rewrite (filter_ext _ _ M2t); try rewrite (filter_ext _ _ M2p)).
+    try rewrite (filter_ext _ _ M2t); try rewrite (filter_ext _ _ M2p))).
 Qed.
 
 (* ---------------------------------------------------------------------------------------------- *)
@@ -512,7 +555,58 @@ Ltac shrink_hook l :=
 
 Lemma gen_mutShrink_eq l ds : gen_mutShrink l ds = m_mutShrink l ds.
 Proof.
-  first [ reflexivity | idtac ].
-  unfold gen_mutShrink, m_mutShrink, mut_shrink, positions.
-  mcrush_with ltac:(shrink_hook l).
+  tryif placeholder_of gen_mutShrink then idtac else (
+    unfold gen_mutShrink, m_mutShrink, mut_shrink, positions;
+    mcrush_with ltac:(shrink_hook l)).
+Qed.
+
+(* ---------------------------------------------------------------------------------------------- *)
+(* mutInsert                                                                                         *)
+(* ---------------------------------------------------------------------------------------------- *)
+Ltac position_bounds p :=
+  match goal with
+  | E : d_choice _ _ = Ok ((p, _), _) |- _ =>
+      let Hin := fresh "Hin" in
+      pose proof (proj1 (d_choice_ok _ _ _ _ E)) as Hin; apply filter_enum_lt in Hin; unfold ty in *; lia
+  end.
+(* the loop that builds the new subtree: with placeholders that are filled in, or appending in prefix order *)
+Ltac insert_loops ps :=
+  try lazymatch goal with
+      | |- context [insert_fill ps ?old ?p 0%nat ?args] =>
+          first
+            [ lazymatch goal with
+              | |- context [for_each (map zfst (combine (seq 0 (length args)) args)) ?b (repeat None (length args)) ?ds] =>
+                  let W := fresh "W" in
+                  pose proof (for_fill ps p b) as W;
+                  lazymatch type of W with
+                  | ?P -> _ => let Hb := fresh "Hb" in
+                               assert (Hb : P) by (intros; mcrush2); specialize (W Hb args [] ds); clear Hb
+                  end;
+                  cbn [length app] in W; rewrite W; clear W;
+                  rewrite (insert_fill_opts ps old p args 0) by (position_bounds p)
+              end
+            | lazymatch goal with
+              | |- context [for_each (map zfst (combine (seq 0 (length args)) args)) ?b ?acc ?ds] =>
+                  let W := fresh "W" in
+                  pose proof (for_insert_append ps old p b) as W;
+                  lazymatch type of W with
+                  | ?P -> _ => let Hb := fresh "Hb" in
+                               assert (Hb : P) by (intros; mcrush2); specialize (W Hb args 0%nat acc ds); clear Hb
+                  end;
+                  rewrite W; clear W
+              end ]
+      end.
+Ltac insert_hook ps :=
+  span_slices; zfst_pairs; cbn [fst snd];
+  positions_list; rewrite ?d_choice_map;
+  unfold len; rewrite ?list_mul_none_len, ?enumerate_from_0; unfold enumerate;
+  insert_loops ps;
+  rewrite ?setslice_nat, ?list_insert_0, ?Nat.sub_0_r; cbn [unwrap_all Nat.add];
+  rewrite ?unwrap_all_app_some.
+
+Lemma gen_mutInsert_eq l ps ds : gen_mutInsert l ps ds = m_mutInsert l ps ds.
+Proof.
+  tryif placeholder_of gen_mutInsert then idtac else (
+    unfold gen_mutInsert, m_mutInsert, mut_insert, positions;
+    mcrush_with ltac:(insert_hook ps)).
 Qed.
